@@ -208,6 +208,8 @@ def set_union_merge_many(list arrays):
     # than 2 ** 32 with uint32 anyway, it's just that gap between 31 and 32.
     cdef list value_arrays = [arr for arr in arrays if len(arr)]
     cdef long num_arrays = len(value_arrays)
+    if num_arrays == 0:
+        return numpy.empty(0, dtype=numpy.uint32)
     varr = numpy.concatenate(value_arrays)
     cdef uint32[:] values = varr
     larr = numpy.array([arr.shape[0] for arr in value_arrays], dtype=int)
